@@ -84,24 +84,79 @@ def cases(seed, tier):
     pairs = [(a, b) for a in elts for b in elts]
     size_pairs = [(n, m) for n in sizes for m in sizes]
     if tier == "quick":
-        pairs = rng.sample(pairs, 14) + [(ELTS[0], ELTS[0]), (ELTS[4], ELTS[4]), (ELTS[0], ELTS[2])]
-        size_pairs = rng.sample(size_pairs, 10) + [(2, 3), (3, 3), (0, 0), (0, 1)]
+        size_pairs = rng.sample(size_pairs, 6) + [(2, 3), (3, 3), (0, 0), (0, 1)]
 
-    def arr(b, e, n):
+    def arr(b, e, n, prov="input"):
+        """an array variable of element type e and size n, built through provenance prov"""
         if e[0] == "tup" and n > 4:
             n = 2
-        return b.value(("arr", e, n)), n
+        if prov == "input" or e[0] != "s" or e[1] == "Const":
+            return b.value(("arr", e, n)), n
+        if prov == "map":       # the result of a map: its element type is stored as a class
+            src = b.value(("arr", S("Secret", "Int"), n))
+            fn = f"f{len(b.st)}"
+            b.st.append({"k": "def", "f": fn, "params": [("e", S("Secret", "Int"))], "ret": e,
+                         "body": [T.inp(f"q{len(b.st)}", f"q{len(b.st)}", e)], "res": f"q{len(b.st)}", "form": "decorator"})
+            x = f"m{len(b.st)}"
+            b.st.append({"k": "map", "x": x, "a": src, "f": fn})
+            return x, n
+        if prov == "new":
+            es = [b.value(e) for _ in range(max(n, 1))]
+            x = f"n{len(b.st)}"
+            b.st.append({"k": "arrnew", "x": x, "es": es})
+            return x, max(n, 1)
+        raise ValueError(prov)
+    # every ordered pair of element types at one equal size, both operations
     for (ea, eb) in pairs:
+        for kind in ("zip", "inner"):
+            b = B()
+            x, n2 = arr(b, ea, 2)
+            y, m2 = arr(b, eb, 2)
+            b.st.append({"k": kind, "x": "r", "a": x, "b": y})
+            c = f"({'CZip' if kind == 'zip' else 'CInner'} {g(ea)} {g(eb)} {gz(n2)} {gz(m2)})"
+            out.append((b.done("r", [kind]), c))
+    # size pairs for a sample of element pairs
+    for (ea, eb) in (pairs if tier != "quick" else rng.sample(pairs, 5) + [(ELTS[0], ELTS[0]), (ELTS[0], ELTS[2])]):
         for (n, m) in size_pairs:
             for kind in ("zip", "inner"):
-                if kind == "inner" and rng.random() < 0.5 and tier == "quick":
-                    continue
                 b = B()
                 x, n2 = arr(b, ea, n)
                 y, m2 = arr(b, eb, m)
                 b.st.append({"k": kind, "x": "r", "a": x, "b": y})
                 c = f"({'CZip' if kind == 'zip' else 'CInner'} {g(ea)} {g(eb)} {gz(n2)} {gz(m2)})"
                 out.append((b.done("r", [kind]), c))
+    # operand arrays of other provenances: map results, Array.new, zip results (compound elements)
+    for (pa, pb) in [("map", "input"), ("input", "map"), ("map", "map"), ("new", "input"), ("map", "new")]:
+        for (ea, eb) in [(ELTS[0], ELTS[4]), (ELTS[4], ELTS[0]), (ELTS[0], ELTS[0]), (ELTS[2], ELTS[3]), (ELTS[1], ELTS[5])]:
+            for kind in ("zip", "inner"):
+                b = B()
+                x, n2 = arr(b, ea, 3, pa)
+                y, m2 = arr(b, eb, 3, pb)
+                b.st.append({"k": kind, "x": "r", "a": x, "b": y})
+                c = f"({'CZip' if kind == 'zip' else 'CInner'} {g(ea)} {g(eb)} {gz(n2)} {gz(m2)})"
+                out.append((b.done("r", [kind, pa, pb]), c))
+    for pa in ("map", "input"):
+        for comp in ("zip", "nested"):
+            b = B()
+            x, _ = arr(b, ELTS[0], 2, pa)
+            if comp == "zip":
+                u, _ = arr(b, ELTS[2], 2); v, _ = arr(b, ELTS[4], 2)
+                b.st.append({"k": "zip", "x": "y", "a": u, "b": v})
+                eb = ("tup", ELTS[2], ELTS[4])
+            else:
+                b.st.append(T.inp("y", "yy", ("arr", ("arr", ELTS[1], 3), 2)))
+                eb = ("arr", ELTS[1], 3)
+            b.st.append({"k": "zip", "x": "r", "a": x, "b": "y"})
+            out.append((b.done("r", ["zip", pa, comp]), f"(CZip {g(ELTS[0])} {g(eb)} {gz(2)} {gz(2)})"))
+            b2 = B()
+            x, _ = arr(b2, ELTS[0], 2, pa)
+            if comp == "zip":
+                u, _ = arr(b2, ELTS[2], 2); v, _ = arr(b2, ELTS[4], 2)
+                b2.st.append({"k": "zip", "x": "y", "a": u, "b": v})
+            else:
+                b2.st.append(T.inp("y", "yy", ("arr", ("arr", ELTS[1], 3), 2)))
+            b2.st.append({"k": "zip", "x": "r", "a": "y", "b": x})
+            out.append((b2.done("r", ["zip", comp, pa]), f"(CZip {g(eb)} {g(ELTS[0])} {gz(2)} {gz(2)})"))
     # unzip / map
     for (ea, eb) in pairs[:12]:
         n = rng.choice([1, 2, 3])
